@@ -139,8 +139,11 @@ func encoding(n *lib.Node) string {
 				sb.WriteByte(0)
 			default:
 				sb.WriteByte(4)
-				var sz [8]byte
-				binary.BigEndian.PutUint64(sz[:], uint64(len(n.Content)))
+				var sz [9]byte // executable flag + size
+				if n.Exec {
+					sz[0] = 1
+				}
+				binary.BigEndian.PutUint64(sz[1:], uint64(len(n.Content)))
 				sb.Write(sz[:])
 				sb.WriteString(n.Content)
 			}
